@@ -51,7 +51,7 @@ func run(r *vk.Run) {
 		"a path through a repeated message field projects each element (design C06); validation must still report such a path invalid ('repeated field')",
 		"messages carry no unknown fields in judged cases; retention of unknown fields by a masked read is counted, not judged",
 		"WithReadPaths is documented to panic on invalid paths: that panic is treated as validation rejecting the mask, not as a read panicking",
-		"projection of a corrupted mask is not judged (only: no panic, no mutation, validation reports it)")
+		"projection of a corrupted mask is not judged (only: no panic, no mutation, validation reports it), with one exception: a mask all of whose paths start with a name the message type does not have must select nothing")
 	m := &mon{r: r, minBudg: map[string]int{}}
 	debug.SetGCPercent(400) // short-lived clones dominate; memory stays small
 	t0 := time.Now()
@@ -116,6 +116,19 @@ func text(s string) func() string { return func() string { return s } }
 
 func (f failure) id() string { return f.clause + ":" + f.kind }
 
+func allUnknownTopLevel(md protoreflect.MessageDescriptor, paths []string) bool {
+	for _, p := range paths {
+		first := p
+		if i := strings.IndexByte(p, '.'); i >= 0 {
+			first = p[:i]
+		}
+		if first == "" || md.Fields().ByName(protoreflect.Name(first)) != nil {
+			return false
+		}
+	}
+	return true
+}
+
 // evaluate runs ep on in and returns everything that contradicts the property. silent runs count nothing.
 func (m *mon) evaluate(ep *entry, in *input, silent bool) (fs []failure, harnessErr string) {
 	var out outcome
@@ -154,6 +167,21 @@ func (m *mon) evaluate(ep *entry, in *input, silent bool) (fs []failure, harness
 		for _, f := range fs {
 			if f.clause != "shape" {
 				keep = append(keep, f)
+			}
+		}
+		// one narrow case is judged all the same: a mask every path of which starts with a name the message type does
+		// not have selects none of its fields, whatever else an implementation does with bad masks
+		if len(in.paths) > 0 && allUnknownTopLevel(in.md, in.paths) {
+			for _, o := range out.obs {
+				if o.got != nil && o.got.ProtoReflect().IsValid() && !isEmpty(o.got.ProtoReflect()) {
+					o := o
+					keep = append(keep, failure{clause: "projection", kind: o.kind + "/unknown-fields-only", detail: func() string {
+						return fmt.Sprintf("the mask %v names no field of %s, yet the read returned %s (stored/passed %s)", in.paths, in.md.FullName(), vk.JSON(o.got), vk.JSON(o.src))
+					}})
+				}
+			}
+			if !silent {
+				m.r.Count("unknown-only-masks-judged", 1)
 			}
 		}
 		return keep, ""
